@@ -2,9 +2,13 @@
    Model: Model/Once.v (thread automaton + memory/kernel semantics), whose rmw-loop body, memory orders, constants
    and atomic-site lists are Gen_once, regenerated from src/once.c, src/shims/lock.h, src/shims/lock.c.
    All statements are about every reachable state: any number of threads, any interleaving, spurious futex
-   returns and spurious weak-CAS failures included. *)
+   returns and spurious weak-CAS failures included; a call enters either directly (dispatch_once_f of the library) or through
+   the inline wrapper of dispatch/once.h (program points PFast / PFRet: plain read of the predicate, ~0l = return at once).
+   Not modelled (see the header of Model/Once.v): an initialiser that itself calls dispatch_once (same predicate: the
+   library crashes "trying to lock recursively", a client obligation; another predicate: an independent instance); a
+   predicate overwritten by the client. *)
 From Coq Require Import ZArith Bool List.
-From Verif Require Import Word Conc Gen_consts Gen_once Once Once_proofs.
+From Verif Require Import Word Conc Replay Gen_consts Gen_once Once OnceR Once_proofs OnceR_proofs.
 Import ListNotations.
 Local Open Scope Z_scope.
 
@@ -41,7 +45,45 @@ Theorem C09_later_calls_do_not_block : forall s t e s',
 Proof. exact done_stable. Qed.
 Print Assumptions C09_later_calls_do_not_block.
 
-(* ties: the model's atomic sites are the source's; the global model moves threads by the conformance automaton *)
+(* the inline fast path of dispatch/once.h.  The fact its plain read relies on: the gate word is ~0l only after the initialiser
+   has finished (and ran exactly once) *)
+Theorem C09_done_implies_finished : forall s, reach s -> word s = DONE -> finished s = true /\ starts s = 1.
+Proof. exact done_implies_finished. Qed.
+Print Assumptions C09_done_implies_finished.
+(* the wrapper's step reads the gate word, takes the way out iff it is ~0l, otherwise enters the library; it writes nothing *)
+Theorem C09_fast_path_reads_done : forall s t e s', gstep s t e = Some s' -> pcs s t = PFast ->
+  ea e = word s /\ (pcs s' t = PFRet <-> word s = DONE) /\ (pcs s' t = PFRet \/ pcs s' t = PTry) /\ word s' = word s.
+Proof. exact fast_path_reads_done. Qed.
+Print Assumptions C09_fast_path_reads_done.
+(* a caller on its way out through the fast path returns after the initialiser finished (C09_no_return_before_completion and
+   C09_return_implies_finished cover its return step as well: early_ret is also set at PFRet) *)
+Theorem C09_fast_path_returns_after_completion : forall s t, reach s -> pcs s t = PFRet -> finished s = true /\ starts s = 1.
+Proof. exact fast_return_after_finish. Qed.
+Print Assumptions C09_fast_path_returns_after_completion.
+
+(* the crash path of _dispatch_gate_broadcast_slow ("lock not owned by current thread") is unreachable: the word the owner
+   exchanges for DONE is its own lock value, with or without the waiters bit *)
+Theorem C09_broadcast_crash_unreachable : forall s o, reach s -> valid_tid o -> pcs s o = PMark ->
+  owner s = Some o /\ (word s = o \/ word s = W o).
+Proof. exact mark_word_is_owners. Qed.
+Print Assumptions C09_broadcast_crash_unreachable.
+
+(* whole-round replay (lib/props/c09.py): the scheduler of OnceR.replay only takes steps of the model, so the state it ends
+   in is reachable; the boolean invariant it evaluates there is true on every reachable state *)
+Theorem C09_replay_reach : forall w depths chains ord s done rest,
+  sched gstep once_hidden once_accepts valid_tidb (S (length ord)) w depths chains init_state ord 0 = (s, done, rest) -> reach s.
+Proof. exact replay_reach. Qed.
+Print Assumptions C09_replay_reach.
+Theorem C09_replay_invariant : forall tids s, reach s -> inv_b tids s = true.
+Proof. exact inv_b_reach. Qed.
+Print Assumptions C09_replay_invariant.
+
+(* ties: the model's atomic sites are the source's; the global model moves threads by the conformance automaton, which is the
+   thread automaton plus the one hidden plain read of the inline wrapper *)
+Theorem C09_conformance_automaton : forall self p e p', tstep_vis self p e = Some p' ->
+  tstep self p e = Some p' \/ exists v p1, tstep self p (ev_plain_load v) = Some p1 /\ tstep self p1 e = Some p'.
+Proof. exact tstep_vis_sound. Qed.
+Print Assumptions C09_conformance_automaton.
 Theorem C09_sites_match_source :
   model_sites_dispatch_once_f = dispatch_once_f_sites /\ model_sites_once_wait = once_wait_sites /\
   once_wait_loop_order = Relaxed.
@@ -53,7 +95,8 @@ Proof. exact gstep_tstep. Qed.
 Print Assumptions C09_model_uses_thread_automaton.
 
 (* non-vacuity: a concrete schedule in which thread 7 wins, thread 9 sets the waiters bit and sleeps, 7 finishes,
-   publishes DONE, wakes; 9 wakes up, sees DONE and returns — every intermediate state is reachable *)
+   publishes DONE, wakes; 9 wakes up, sees DONE and returns; thread 11 then calls through the inline wrapper and leaves by
+   the fast path — every intermediate state is reachable *)
 Definition ev k o a b ok := mkEv k o 0 0 8 a b ok.
 Definition demo_schedule : list (Z * event) :=
   [ (7, ev DVU_CALL 0 0 0 1); (7, ev DV_CAS 0 0 7 1); (9, ev DVU_CALL 0 0 0 1); (9, ev DV_CAS 0 7 9 0);
@@ -61,11 +104,15 @@ Definition demo_schedule : list (Z * event) :=
     (9, ev DV_FUTEX_WAIT 0 2147483655 0 1); (7, ev DVU_CALLOUT_END 0 0 0 1);
     (7, ev DV_XCHG 3 2147483655 18446744073709551615 1); (7, ev DV_FUTEX_WAKE 0 0 0 1); (7, ev DVU_RET 0 0 0 1);
     (9, ev DV_FUTEX_WAIT_RET 0 0 0 1); (9, ev DV_LOAD 0 18446744073709551615 18446744073709551615 1);
-    (9, ev DVU_RET 0 0 0 1) ].
+    (9, ev DVU_RET 0 0 0 1);
+    (* a later call through the inline wrapper: plain read of ~0l, return *)
+    (11, ev DVU_CALL 0 1 0 1); (11, ev DV_LOAD MO_PLAIN 18446744073709551615 18446744073709551615 1); (11, ev DVU_RET 0 0 0 1) ].
 Example C09_nonvacuous :
   match grun init_state (firstn 9 demo_schedule) with
   | Some s => slp s 9 = Sleeping /\ word s = W 7 /\ pcs s 7 = PMark | None => False end /\
+  match grun init_state (firstn 17 demo_schedule) with
+  | Some s => pcs s 11 = PFRet /\ word s = DONE | None => False end /\
   match grun init_state demo_schedule with
-  | Some s => word s = DONE /\ starts s = 1 /\ finished s = true /\ pcs s 9 = PIdle /\ early_ret s = false
+  | Some s => word s = DONE /\ starts s = 1 /\ finished s = true /\ pcs s 9 = PIdle /\ pcs s 11 = PIdle /\ early_ret s = false
   | None => False end.
 Proof. vm_compute. repeat split. Qed.
